@@ -250,7 +250,11 @@ func rfInputs(parser string, r *rand.Rand, thorough bool) []*rfInput {
 			add(name+"/trunc", b[:len(b)*2/3])
 			// a few bytes missing at the end (fewer than a caller's preamble may have been long): what is missing is missing,
 			// whatever a source's Size() / Len() / capacity suggests
-			for _, cut := range []int{1, 13, 40} {
+			cuts := []int{13}
+			if parser == "bundle" || thorough {
+				cuts = []int{1, 13, 40}
+			}
+			for _, cut := range cuts {
 				if len(b) > cut+4 {
 					add(fmt.Sprintf("%s/trunc-%d", name, cut), b[:len(b)-cut])
 				}
